@@ -12,6 +12,10 @@ fn main() {
         install_quiet_panic_hook();
         std::process::exit(props::c14::worker(&args[1], args[2].parse().unwrap()));
     }
+    if args[0] == "--worker-c16" {
+        install_quiet_panic_hook();
+        std::process::exit(props::c16::worker());
+    }
     let id = args[0].clone();
     let mut tier = match std::env::var("VERIF_TIER").as_deref() {
         Ok("thorough") => Tier::Thorough,
@@ -103,6 +107,7 @@ fn main() {
         "C12" => props::c12::run(tier, seed, replay.as_deref()),
         "C13" => props::c13::run(tier, seed, replay.as_deref()),
         "C14" => props::c14::run(tier, seed, replay.as_deref()),
+        "C16" => props::c16::run(tier, seed, replay.as_deref()),
         "C15" => props::c15::run(tier, seed, replay.as_deref()),
         _ => {
             eprintln!("unknown property {id}");
